@@ -174,7 +174,8 @@ impl Ctx {
     }
 
     pub fn point(&self, sid: usize, phase: u64) {
-        if self.identify() {
+        // mode 1: identification run; mode 2: free run (no scheduler, e.g. cross-build digests)
+        if self.mode.load(Ordering::Relaxed) != 0 {
             return;
         }
         detsim::yield_with_info(info(sid, phase));
